@@ -256,54 +256,62 @@ Definition keep_conflict (hd prev t ix w : fmap) : bool :=
 
 Inductive rmode := Mixed | Hard | Merge | Soft | Keep.
 
-(* Reset; [from] is ResetOptions.fromTree (set by Checkout only); commit -1 is
-   the zero hash *)
+(* the mutating part of Reset: move HEAD, reset the index, update the worktree *)
+Definition apply_reset (c : Z) (t pv : fmap) (m : rmode) (s : state) : result :=
+  match set_head_commit c s with
+  | (Some e, s1) => (Some e, s1)
+  | (None, s1) =>
+    let ri := reset_index t (idx s1) in
+    let s2 := set_idx s1 (fst ri) in
+    match m with
+    | Mixed | Soft => (None, s2)
+    | Merge =>
+      match snd ri with
+      | [] => (None, s2)
+      | _ =>
+        let r := reset_worktree t (snd ri) (fst ri) (wt s2) in
+        (fst r, set_wt (set_idx s2 (fst (snd r))) (snd (snd r)))
+      end
+    | Hard | Keep =>
+      let r := reset_worktree_to_tree pv t (fst ri) (wt s2) in
+      (fst r, set_wt (set_idx s2 (fst (snd r))) (snd (snd r)))
+    end
+  end.
+
+(* ResetOptions.Validate: the zero hash (-1) means HEAD; another hash must be a commit *)
+Definition reset_commit (commit : Z) (s : state) : option err * Z :=
+  if (commit =? -1)%Z then
+    match head_commit s with None => (Some ERefNotFound, commit) | Some c => (None, c) end
+  else match tree_of s commit with None => (Some EObjectNotFound, commit) | Some _ => (None, commit) end.
+
+(* the tree the worktree is diffed from (Hard / Keep) *)
+Definition prev_tree (m : rmode) (from : option fmap) (s : state) : htree :=
+  match m with
+  | Hard | Keep => match from with Some f => HTTree f | None => head_tree s end
+  | _ => HTNone
+  end.
+
+(* Reset; [from] is ResetOptions.fromTree (set by Checkout only) *)
 Definition reset (commit : Z) (m : rmode) (from : option fmap) (s : state) : result :=
-  (* ResetOptions.Validate *)
-  match (if (commit =? -1)%Z then head_commit s else Some commit) with
-  | None => (Some ERefNotFound, s)
-  | Some c =>
-    if negb (commit =? -1)%Z && match tree_of s c with None => true | Some _ => false end
-    then (Some EObjectNotFound, s)
-    else if match m with Merge => unstaged s | _ => false end then (Some EUnstaged, s)
+  match reset_commit commit s with
+  | (Some e, _) => (Some e, s)
+  | (None, c) =>
+    if match m with Merge => unstaged s | _ => false end then (Some EUnstaged, s)
     else match m with
     | Soft => set_head_commit c s
     | _ =>
       match tree_of s c with
       | None => (Some EObjectNotFound, s)
       | Some t =>
-        let prev :=
-          match m with
-          | Hard | Keep => match from with Some f => HTTree f | None => head_tree s end
-          | _ => HTNone
-          end in
-        match prev with
+        match prev_tree m from s with
         | HTErr => (Some EObjectNotFound, s)
-        | _ =>
+        | prev =>
           let pv := tree_or_empty prev in
           if match m with
              | Keep => keep_conflict (tree_or_empty (head_tree s)) pv t (idx s) (wt s)
              | _ => false end
           then (Some ELocalChanges, s)
-          else match set_head_commit c s with
-          | (Some e, s1) => (Some e, s1)
-          | (None, s1) =>
-            let (ix1, removed) := reset_index t (idx s1) in
-            let s2 := set_idx s1 ix1 in
-            match m with
-            | Mixed | Soft => (None, s2)
-            | Merge =>
-              match removed with
-              | [] => (None, s2)
-              | _ =>
-                let '(e, (ix2, w2)) := reset_worktree t removed ix1 (wt s2) in
-                (e, set_wt (set_idx s2 ix2) w2)
-              end
-            | Hard | Keep =>
-              let '(e, (ix2, w2)) := reset_worktree_to_tree pv t ix1 (wt s2) in
-              (e, set_wt (set_idx s2 ix2) w2)
-            end
-          end
+          else apply_reset c t pv m s
         end
       end
     end
@@ -312,62 +320,82 @@ Definition reset (commit : Z) (m : rmode) (from : option fmap) (s : state) : res
 Record copts := mkCopts {
   co_branch : bytes; co_hash : Z; co_create : bool; co_force : bool; co_keep : bool }.
 
-(* Checkout, in the order of the code: Validate, createBranch, resolve the
-   commit, capture the from-tree, move HEAD, Reset *)
-Definition checkout (o : copts) (s : state) : result :=
-  let zero := (co_hash o =? -1)%Z in
-  if negb (co_create o) && negb zero && negb (match co_branch o with [] => true | _ => false end)
-  then (Some EBranchHashExclusive, s)
-  else if co_create o && match co_branch o with [] => true | _ => false end
-  then (Some ECreateRequiresBranch, s)
-  else
-    let br := match co_branch o with [] => master | b => b end in
-    (* createBranch (may set opts.Hash) *)
-    let created : option err * (Z * state) :=
-      if co_create o then
-        match lookup br (refs s) with
-        | Some _ => (Some EBranchExists, (co_hash o, s))
-        | None =>
-          if zero then
-            match head_commit s with
-            | None => (Some ERefNotFound, (co_hash o, s))
-            | Some h => (None, (h, set_refs s (insert br h (refs s))))
-            end
-          else (None, (co_hash o, set_refs s (insert br (co_hash o) (refs s))))
+(* CheckoutOptions.Validate *)
+Definition co_validate (o : copts) : option err :=
+  let noname := match co_branch o with [] => true | _ => false end in
+  if negb (co_create o) && negb (co_hash o =? -1)%Z && negb noname then Some EBranchHashExclusive
+  else if co_create o && noname then Some ECreateRequiresBranch
+  else None.
+
+Definition co_branch_name (o : copts) : bytes :=
+  match co_branch o with [] => master | b => b end.
+
+(* createBranch: refuses an existing name; a zero opts.Hash becomes HEAD's commit *)
+Definition create_branch (o : copts) (br : bytes) (s : state) : option err * (Z * state) :=
+  if co_create o then
+    match lookup br (refs s) with
+    | Some _ => (Some EBranchExists, (co_hash o, s))
+    | None =>
+      if (co_hash o =? -1)%Z then
+        match head_commit s with
+        | None => (Some ERefNotFound, (co_hash o, s))
+        | Some h => (None, (h, set_refs s (insert br h (refs s))))
         end
-      else (None, (co_hash o, s)) in
-    match created with
-    | (Some e, (_, s1)) => (Some e, s1)
+      else (None, (co_hash o, set_refs s (insert br (co_hash o) (refs s))))
+    end
+  else (None, (co_hash o, s)).
+
+(* getCommitFromCheckoutOptions *)
+Definition resolve_commit (br : bytes) (hash : Z) (s : state) : option err * Z :=
+  match (if (hash =? -1)%Z then lookup br (refs s) else Some hash) with
+  | None => (Some ERefNotFound, hash)
+  | Some c => match tree_of s c with None => (Some EObjectNotFound, c) | Some _ => (None, c) end
+  end.
+
+Definition co_mode (o : copts) : rmode :=
+  if co_force o then Hard else if co_keep o then Soft else Merge.
+
+(* setHEADToCommit / setHEADToBranch *)
+Definition move_head (o : copts) (br : bytes) (hash c : Z) (s : state) : option err * state :=
+  if negb (hash =? -1)%Z && negb (co_create o) then (None, set_head s (HDet hash))
+  else match lookup br (refs s) with
+       | None => (Some ERefNotFound, s)
+       | Some _ => (None, set_head s (if is_branch br then HSym br else HDet c))
+       end.
+
+(* Checkout up to (excluding) its final Reset, in the order of the code:
+   Validate, createBranch, resolve the commit, capture the from-tree (Force
+   only), move HEAD.  Returns the arguments of the Reset and the state so far. *)
+Definition checkout_pre (o : copts) (s : state) : option err * ((Z * rmode * option fmap) * state) :=
+  let dflt := ((-1)%Z, Mixed, None) in
+  match co_validate o with
+  | Some e => (Some e, (dflt, s))
+  | None =>
+    let br := co_branch_name o in
+    match create_branch o br s with
+    | (Some e, (_, s1)) => (Some e, (dflt, s1))
     | (None, (hash, s1)) =>
-      (* getCommitFromCheckoutOptions *)
-      let zero1 := (hash =? -1)%Z in
-      match (if zero1 then lookup br (refs s1) else Some hash) with
-      | None => (Some ERefNotFound, s1)
-      | Some c =>
-        match tree_of s1 c with
-        | None => (Some EObjectNotFound, s1)
-        | Some _ =>
-          let m := if co_force o then Hard else if co_keep o then Soft else Merge in
-          let from := match m with Hard => Some (head_tree s1) | _ => None end in
-          match from with
-          | Some HTErr => (Some EObjectNotFound, s1)
-          | _ =>
-            (* setHEADToCommit / setHEADToBranch *)
-            let moved : option err * state :=
-              if negb zero1 && negb (co_create o) then (None, set_head s1 (HDet hash))
-              else match lookup br (refs s1) with
-                   | None => (Some ERefNotFound, s1)
-                   | Some _ => (None, set_head s1 (if is_branch br then HSym br else HDet c))
-                   end in
-            match moved with
-            | (Some e, s2) => (Some e, s2)
-            | (None, s2) =>
-              reset c m (match from with Some (HTTree f) => Some f | _ => None end) s2
-            end
+      match resolve_commit br hash s1 with
+      | (Some e, _) => (Some e, (dflt, s1))
+      | (None, c) =>
+        let m := co_mode o in
+        match (match m with Hard => head_tree s1 | _ => HTNone end) with
+        | HTErr => (Some EObjectNotFound, (dflt, s1))
+        | from =>
+          match move_head o br hash c s1 with
+          | (Some e, s2) => (Some e, (dflt, s2))
+          | (None, s2) => (None, ((c, m, match from with HTTree f => Some f | _ => None end), s2))
           end
         end
       end
-    end.
+    end
+  end.
+
+Definition checkout (o : copts) (s : state) : result :=
+  match checkout_pre o s with
+  | (Some e, (_, s1)) => (Some e, s1)
+  | (None, ((c, m, from), s2)) => reset c m from s2
+  end.
 
 (* ---------- operations of a case: porcelain ops and direct worktree edits *)
 
